@@ -173,3 +173,16 @@ Proof. exact null_update_refloors. Qed.
 Example C07_null_update_nonvacuous :
   length id9 = 9%nat /\ valid_snapshot 2 snap_ex /\ Forall (fun f => thr 0.3 2 <= f) (sn_f snap_ex).
 Proof. exact null_update_nonvacuous_proof. Qed.
+
+(* malformed calls of update_orientations (velocity-gradient / position argument not callable, pathline tuple with
+   two or four entries) are rejected with ValueError -- in the generated code (k_update_args_n1, tied by
+   Inst_minerals_drv.update_args_inst_1) this is a leaf reached before any user callable is evaluated, before the
+   integrator is constructed and with the stored history untouched; every other call builds the problem instance *)
+Theorem C07_malformed_call_rejected : forall bad (Fd : list R) (s : @snapshot NumR) t0 t1,
+  (bad = 1 \/ bad = 2 \/ bad = 3 \/ bad = 4)%Z -> @checked_problem NumR bad Fd s t0 t1 = Err ValueError.
+Proof. exact malformed_call_rejected. Qed.
+Theorem C07_wellformed_call_builds_problem : forall bad (Fd : list R) (s : @snapshot NumR) t0 t1,
+  (bad <> 1 /\ bad <> 2 /\ bad <> 3 /\ bad <> 4)%Z ->
+  @checked_problem NumR bad Fd s t0 t1 = Ok (@lsoda_problem_of NumR Fd s t0 t1).
+Proof. exact wellformed_call_builds_problem. Qed.
+
